@@ -56,6 +56,7 @@ func (p *Prog) verifyFunction(f *ssa.Function, c *Contract) (res *FnResult) {
 			pv := q.fresh("p_"+prm.Name()+"_val", sInt)
 			q.assume(le(tInt(0), tg))
 			v = mkIface(tg, pv)
+			ex.typeFacts(v, prm.Type())
 		} else {
 			v = ex.havocVal("p_"+prm.Name(), prm.Type(), tTrue)
 		}
@@ -65,7 +66,7 @@ func (p *Prog) verifyFunction(f *ssa.Function, c *Contract) (res *FnResult) {
 			q.assume(lt(v, a0))
 		}
 		if _, isSl := prm.Type().Underlying().(*types.Slice); isSl {
-			q.assume(lt(slBase(v), a0))
+			q.assume(validBlock(slBase(v), a0))
 		}
 		q.modelVars = append(q.modelVars, v.S)
 	}
@@ -73,6 +74,29 @@ func (p *Prog) verifyFunction(f *ssa.Function, c *Contract) (res *FnResult) {
 		v := ex.havocVal("fv_"+fv.Name(), fv.Type(), tTrue)
 		ex.freeVars = append(ex.freeVars, v)
 	}
+	// package-level invariants of never-rewritten globals hold in every state
+	inGlobals := false
+	q.assumeGlobals = func(h *Heap) {
+		if inGlobals || q.pureDepth > 0 {
+			return
+		}
+		inGlobals = true
+		defer func() { inGlobals = false }()
+		for _, g := range p.contracts.Globals {
+			var sp *ssa.Package
+			for _, x := range p.prog.AllPackages() {
+				if x.Pkg.Path() == g.Pkg {
+					sp = x
+				}
+			}
+			if sp == nil {
+				continue
+			}
+			sc := &SpecCtx{ex: ex, pkg: sp, vars: map[string]SV{}, heap: h, old: h}
+			q.assume(sc.evalBool(g.Clause))
+		}
+	}
+	q.assumeGlobals(h0)
 	pre := ex.specCtx(ex.paramVars(), h0)
 	for _, r := range c.Requires {
 		q.assume(pre.evalBool(r))
@@ -130,7 +154,8 @@ func (p *Prog) verifyFunction(f *ssa.Function, c *Contract) (res *FnResult) {
 		if v, ok := ex.witness[w.Name]; ok {
 			vars[w.Name] = v
 		} else {
-			vars[w.Name] = SV{q.fresh("wit_"+w.Name, sInt), types.Typ[types.Int]}
+			wt := p.witnessType(f, w)
+			vars[w.Name] = SV{ex.havocVal("wit_"+w.Name, wt, tTrue), wt}
 			q.note("witness %s was never captured (no call %s#%d reached)", w.Name, w.Callee, w.N)
 		}
 	}
@@ -208,8 +233,11 @@ func (p *Prog) verifyFunction(f *ssa.Function, c *Contract) (res *FnResult) {
 		q.oblige(key+"/post.fresh", "post", anyRet, and(le(a0, r0), lt(r0, q.heapGet(hf, allocKey))), p.fset.Position(f.Pos()), "result is freshly allocated")
 	}
 	// frame
-	if c.HasMod {
+	if c.HasMod && !c.TrustFrame {
 		ex.frameObligations(c, h0, hf, anyRet, a0)
+	}
+	if c.TrustFrame {
+		q.note("ASSUMED FRAME: %s modifies only what its contract lists (not checked: logging / Inspect calls are treated as having no effect on interpreter state)", key)
 	}
 	return res
 }
@@ -232,7 +260,11 @@ func (ex *Exec) frameObligations(c *Contract, h0, hf *Heap, guard, a0 Term) {
 	wholeOK := map[string]bool{}
 	for _, e := range effs {
 		if e.param >= 0 {
-			allowed[e.key] = append(allowed[e.key], ex.params[e.param])
+			bt := ex.params[e.param]
+			if e.arrField > 0 {
+				bt = arrBase(bt, e.arrField-1)
+			}
+			allowed[e.key] = append(allowed[e.key], bt)
 		} else {
 			wholeOK[e.key] = true
 		}
@@ -252,6 +284,11 @@ func (ex *Exec) frameObligations(c *Contract, h0, hf *Heap, guard, a0 Term) {
 			continue
 		}
 		conds := []string{"(< 0 p!f)", "(< p!f " + a0.S + ")"}
+		if strings.HasPrefix(key, "M:") {
+			// memory blocks: slices/arrays allocated before (0 < p < a0) and array fields of objects allocated before
+			// (arrBase(ref, f) = -(f+1) - 64*ref with 0 < ref < a0)
+			conds = []string{"(< p!f " + a0.S + ")", "(> p!f (- (* 64 " + a0.S + ")))"}
+		}
 		for _, b := range allowed[key] {
 			conds = append(conds, "(not (= p!f "+b.S+"))")
 		}
